@@ -8,7 +8,7 @@ pub trait OptionExt {
     fn has(&self, c: Component) -> (b: bool);
 }
 impl OptionExt for Option<Component> {
-//@ item has file=src/core/option.rs block="impl<T> OptionExt<T> for Option<T>" fn=has props=C19,C14,C12
+//@ item has file=src/core/option.rs block="impl<T> OptionExt<T> for Option<T>" fn=has reach=no props=C19,C14,C12
 //@ sig fn has<U>(&self, x: U) -> bool where U: PartialEq<T>
     fn has(&self, x: Component) -> (b: bool)
         ensures b == (*self == Some(x))     //@ clause has.post [C19,C14]
